@@ -26,6 +26,8 @@ gvars == <<vars, rel, pend, hist, nprobe>>
 
 IdlePCs == {"c.idle0", "c.idle1", "s.idle", "s.idle2", "env"}
 ParkPCs == {"td.close", "co.chk", "er.chk", "hb.chk", "g.werr", "u.begin", "g.begin", "g.found", "dt.begin", "sh.begin", "u.flushing"}
+\* (with FixInit the trig.init.found point sits inside r.mu: the start goroutine then parks holding the lock and every
+\*  release of an actor that needs r.mu meanwhile is a probe)
 ParksAt(a, pc) == pc \in IdlePCs \/ pc \in ParkPCs \/ (pc = "un.begin" /\ a[1] # "c")
 EndPCs == {"none", "c.end", "s.end", "u.end", "g.end", "sh.end", "env.end"}
 
